@@ -913,6 +913,127 @@ def _x_compose2(reg, c):
     return []
 
 
+_TOKENS = {"edif": r'\(|\)|"[^"]*"|[^\s()"]+', "verilog": r'\\\S+ |`\w+|\w+\'[bdhBDH]\w+|\w+|\S', "eblif": r"[^ \t\n]+|\n"}
+_REFKW = {"edif": {"cellref", "libraryref", "portref", "instanceref", "member", "viewref"},
+          "verilog": set(), "eblif": set()}
+_PROBE_BASE = []
+
+
+def _probe():
+    """a fixed script whose observable behaviour depends on the process-wide naming policy"""
+    out = []
+    try:
+        n = sdn.Netlist(name="probe")
+        lib = n.create_library(name="l")
+        a = lib.create_definition(name="a")
+        b = lib.create_definition(name="b")
+        out.append(str(n[".NS"]))
+        for e, v in ((a, "x"), (b, "X")):
+            try:
+                e["EDIF.identifier"] = v
+                out.append("ok")
+            except Exception as ex:
+                out.append(type(ex).__name__)
+        out.append(str(sdn.namespace_manager.default))
+        path = _tmpfile(".edf")
+        try:
+            with open(path, "w") as f:
+                f.write(_GOOD_EDIF)
+            g = sdn.parse(path)
+            top = g.top_instance
+            out.append("good:%s/%s/%d" % (top.name if top is not None else None,
+                                          top.reference.name if top is not None and top.reference is not None else None,
+                                          len(g.libraries)))
+        finally:
+            os.unlink(path)
+        out.append(str(sdn.namespace_manager.default))
+    except Exception as ex:
+        out.append("probe failed: " + type(ex).__name__)
+    return "|".join(out)
+
+
+_GOOD_EDIF = """(edif good (edifVersion 2 0 0) (edifLevel 0) (keywordMap (keywordLevel 0))
+ (library lib (edifLevel 0) (technology (numberDefinition))
+  (cell leaf (cellType GENERIC) (view netlist (viewType NETLIST) (interface (port i (direction INPUT)))))
+  (cell top (cellType GENERIC) (view netlist (viewType NETLIST) (interface (port p (direction INPUT)))
+    (contents (instance u (viewRef netlist (cellRef leaf (libraryRef lib))))
+              (net n (joined (portRef p) (portRef i (instanceRef u))))))))
+ (design top (cellRef top (libraryRef lib))))
+"""
+
+
+def mutate_text(fmt, text, kind, idx):
+    """one corruption of a valid text.  idx is a position in 400ths of the token sequence."""
+    import re
+    toks = re.findall(_TOKENS[fmt], text)
+    n = len(toks)
+    if kind == "dangle":
+        refs = [i + 1 for i, t in enumerate(toks[:-1]) if t.lower() in _REFKW[fmt] and toks[i + 1] not in ("(", ")")]
+        if not refs:
+            return None, n
+        pos = refs[idx % len(refs)]
+        toks[pos] = "never_declared_zz"
+    else:
+        pos = min(n - 1, (idx * n) // 400)
+        if kind == "trunc":
+            toks = toks[:pos]
+        elif kind == "del":
+            del toks[pos]
+        elif kind == "dup":
+            toks.insert(pos, toks[pos])
+        elif kind == "repl":
+            toks[pos] = "zz9"
+    sep = " " if fmt != "eblif" else " "
+    return sep.join(toks) + "\n", n
+
+
+def _x_parse_text(reg, c):
+    """parse one corrupted (or, with kind = none, the valid) rendering of netlist n and observe the outcome,
+    the naming policy before/after and the behaviour of a fixed probe script afterwards"""
+    import edif_text
+    import verilog_text
+    import eblif_text
+    st = project(reg)
+    fmt = c["fmt"]
+    rnd = {"edif": edif_text, "verilog": verilog_text, "eblif": eblif_text}[fmt]
+    base = rnd.render(st, c["n"], {})
+    if c["kind"] == "none":
+        text, ntok = base, 0
+    else:
+        text, ntok = mutate_text(fmt, base, c["kind"], c["idx"])
+        if text is None:
+            raise HarnessError("no such token")
+    if not _PROBE_BASE:
+        _PROBE_BASE.append(_probe())
+    path = _tmpfile({"edif": ".edf", "verilog": ".v", "eblif": ".eblif"}[fmt])
+    extra = {"policy_before": _val(sdn.namespace_manager.default), "ntok": ntok, "same_text": text == base}
+    new = None
+    import signal
+    try:
+        with open(path, "w") as f:
+            f.write(text)
+        try:
+            new = sdn.parse(path)
+            extra["parse"] = "ok"
+        except CallTimeout:
+            extra["parse"] = "timeout"
+        except Exception as e:
+            extra["parse"] = "raised"
+            extra["raised"] = type(e).__name__
+        except BaseException as e:      # e.g. SystemExit from a tokenizer
+            extra["parse"] = "raised"
+            extra["raised"] = type(e).__name__
+    finally:
+        if os.path.exists(path):
+            os.unlink(path)
+    extra["policy_after"] = _val(sdn.namespace_manager.default)
+    extra["probe_same"] = (_probe() == _PROBE_BASE[0])
+    if extra["policy_after"] != extra["policy_before"]:
+        sdn.namespace_manager.default = extra["policy_before"]      # do not let one failure distort the next case
+    reg.last_extra = extra
+    return [("N", new)] if new is not None else []
+
+
 def _x_compare(reg, c):
     from spydrnet.compare.compare_netlists import Comparer
     import io
@@ -938,7 +1059,7 @@ def _x_clone(reg, c):
     return [(c["kind"], new)]
 
 
-QUERY_OPS = {"compose2": _x_compose2, "eblif_read": _x_eblif_read, "eblif_rt": _x_eblif_rt, "vlog_read": _x_vlog_read, "vlog_rt": _x_vlog_rt, "edif_read": _x_edif_read, "edif_rt": _x_edif_rt, "compare": _x_compare, "q": _q_query, "clone": _x_clone, "hq": _q_hq, "hcheck": _q_hcheck, "uniquify": _x_uniquify, "flatten": _x_flatten}
+QUERY_OPS = {"parse_text": _x_parse_text, "compose2": _x_compose2, "eblif_read": _x_eblif_read, "eblif_rt": _x_eblif_rt, "vlog_read": _x_vlog_read, "vlog_rt": _x_vlog_rt, "edif_read": _x_edif_read, "edif_rt": _x_edif_rt, "compare": _x_compare, "q": _q_query, "clone": _x_clone, "hq": _q_hq, "hcheck": _q_hcheck, "uniquify": _x_uniquify, "flatten": _x_flatten}
 
 
 class CallTimeout(Exception):
@@ -975,7 +1096,7 @@ def execute(reg, c):
     for kind, obj in created:
         if obj is not None:
             reg.bind(kind, obj)
-    if c["op"] in ("clone", "edif_read", "edif_rt", "vlog_read", "vlog_rt", "eblif_read", "eblif_rt"):
+    if c["op"] in ("clone", "edif_read", "edif_rt", "vlog_read", "vlog_rt", "eblif_read", "eblif_rt", "parse_text"):
         reg.last_ret = [reg.id_of(created[0][1], created[0][0])] if created else []
         reg.last_info = []
     return "ok", ""
